@@ -1001,7 +1001,7 @@ let () = register "c09" (fun line ->
   | "stop-halfclosed-silent" -> report "" (run ([LServeBegin; LBindOk; LAccept; LStop]))
   | "stop-before-start" -> report "" (run [LStop])
   | "stop-hc-probing" -> "stop=ok goroutines=ok"
-  | "stop-active" | "stop-backend-down" | "stop-silent-backend" | "stop-after-conn-loss" | "stop-during-connect" -> report "" (run ([LServeBegin; LBindOk] @ accepts @ [LStop]))
+  | "stop-active" | "stop-backend-down" | "stop-silent-backend" | "stop-after-conn-loss" | "stop-during-connect" | "stop-stubborn-backend" -> report "" (run ([LServeBegin; LBindOk] @ accepts @ [LStop]))
   | "accept-emfile" ->
     (* accept fails temporarily a few times; the connection that was waiting is then served *)
     let s = run [LServeBegin; LBindOk; LAcceptTemp; LAcceptTemp; LAcceptTemp; LAccept] in
@@ -1042,6 +1042,7 @@ let () = register "c06tcp" (fun line ->
   let st = Array.make nb (Stats.sinit Z0) in
   let kept = ref [] in   (* (index, backend, open) in order of creation *)
   let nk = ref 0 in
+  let halfc = ref [] in
   let counts () = S.concat "," (L.init nb (fun i -> string_of_int (int_of_z st.(i).Stats.cx_active))) in
   let outs = L.map (fun op ->
     let body = S.sub op 1 (S.length op - 1) in
@@ -1069,6 +1070,8 @@ let () = register "c06tcp" (fun line ->
            st.(k0) <- Stats.sinit Z0;
            Printf.sprintf "%s closed=%d late=0" r !n
          | _ -> "?")
+      | 'h' -> halfc := int_of_string body :: !halfc; ""
+      | 'c' when L.mem (int_of_string body) !halfc -> ""
       | 'c' ->
         let i = int_of_string body in
         L.iter (fun (k, b, o) -> if k = i && !o then begin o := false; st.(b) <- Stats.sstep st.(b) Stats.SvFinish end) !kept; ""
